@@ -534,7 +534,20 @@ where
 		));
 	}
 
-	let orig_proof_info = tx_vec[0].clone().payment_proof;
+	// What was asked for at initiation. Several entries can share the slate id (a
+	// receive entry exists next to the send when the slate was also handed to this
+	// wallet's receive_tx), so take the request from the private context, and for
+	// contexts stored before it was recorded there, from the send entry
+	let orig_proof_info = match context.payment_proof_recipient_address {
+		Some(a) => Some(a),
+		None => tx_vec
+			.iter()
+			.find(|t| t.tx_type == TxLogEntryType::TxSent)
+			.unwrap_or(&tx_vec[0])
+			.payment_proof
+			.as_ref()
+			.map(|p| p.receiver_address),
+	};
 
 	if orig_proof_info.is_some() && slate.payment_proof.is_none() {
 		return Err(Error::PaymentProof(
@@ -543,8 +556,8 @@ where
 	}
 
 	if let Some(ref p) = slate.clone().payment_proof {
-		let orig_proof_info = match orig_proof_info {
-			Some(p) => p.clone(),
+		let orig_receiver_address = match orig_proof_info {
+			Some(a) => a,
 			None => {
 				return Err(Error::PaymentProof(
 					"Original proof info not stored in tx".to_owned(),
@@ -569,7 +582,7 @@ where
 			));
 		}
 
-		if orig_proof_info.receiver_address != p.receiver_address {
+		if orig_receiver_address != p.receiver_address {
 			return Err(Error::PaymentProof(
 				"Recipient address on slate does not match original recipient address".to_owned(),
 			));
